@@ -545,7 +545,7 @@ impl<'a> Gen<'a> {
         let h0 = self.h;
         let k = self.r.below(4);
         for _ in 0..k {
-            match self.r.below(5) {
+            match self.r.below(6) {
                 0 => {
                     self.emit(REPC);
                     self.h += 1;
@@ -569,6 +569,7 @@ impl<'a> Gen<'a> {
                         self.repeat_loop()
                     }
                 }
+                4 if self.allow_compute && !self.in_child && self.r.chance(0.5) => self.compute(),
                 _ => self.memory_store_only(),
             }
             while self.h > h0 {
@@ -841,6 +842,11 @@ impl<'a> Gen<'a> {
     fn compute(&mut self) {
         let n = *self.r.pick(&[-1i64, 0, 1, 1, 2, 2, 3, 3, 4, 5, 8, 16, 33, 64]);
         let n = if self.r.chance(0.02) { *self.r.pick(&[200, 1000, 3000]) } else { n };
+        if self.r.chance(0.5) {
+            // make sure the children inherit at least one word they can consume
+            let w = self.r.range(100, 200);
+            self.pushw(w);
+        }
         self.pushw(n);
         self.emit(COM);
         self.h -= 1;
@@ -851,7 +857,63 @@ impl<'a> Gen<'a> {
         self.ml = 0;
         let k = self.r.below(6);
         for _ in 0..k {
-            match self.r.below(12) {
+            match self.r.below(17) {
+                12 => {
+                    // large indices halt early: an early child is the one that gets furthest
+                    self.emit(DUP);
+                    let t = self.r.range(1, 4);
+                    self.emit(push(t));
+                    self.emit(GTE);
+                    self.emit(HLTIF);
+                }
+                13 => {
+                    // odd indices stop at an early ComputeEnd, even ones skip it
+                    self.emit(DUP);
+                    self.emit(push(1));
+                    self.emit(BAND);
+                    self.emit(NOT);
+                    self.emit(push(2));
+                    self.emit(SWAP);
+                    self.emit(JMPIF);
+                    self.emit(COME);
+                    self.emit(push(1));
+                    self.emit(ALOC);
+                    self.emit(POP);
+                    self.ml += 1;
+                }
+                14 => {
+                    // consume an inherited word and record it (the child stack is a private copy)
+                    if self.h >= 2 {
+                        self.emit(POP);
+                        self.emit(push(1));
+                        self.emit(ALOC);
+                        self.emit(STO);
+                        self.emit(push(7));
+                        self.ml += 1;
+                    }
+                }
+                15 => {
+                    // overwrite the bottom word of the inherited stack
+                    if self.h >= 2 {
+                        self.emit(DUP);
+                        self.emit(push(0));
+                        self.emit(STOS);
+                        self.emit(push(0));
+                        self.emit(LODS);
+                        self.emit(push(1));
+                        self.emit(ALOC);
+                        self.emit(STO);
+                        self.ml += 1;
+                    }
+                }
+                16 => {
+                    // the parent's loop counter is visible in the child
+                    self.emit(REPC);
+                    self.emit(push(1));
+                    self.emit(ALOC);
+                    self.emit(STO);
+                    self.ml += 1;
+                }
                 0 => {
                     // index-dependent allocation
                     self.emit(DUP);
@@ -1024,7 +1086,20 @@ pub fn gas_setup(r: &mut Rng, case: &mut VmCase, exact_total: Option<u128>) {
         1 | 2 => CostFn::Const(1),
         3 => CostFn::Const(*r.pick(&[2u64, 7, 1 << 20, 1 << 62, 1 << 63, u64::MAX / 60, u64::MAX])),
         4 | 5 => CostFn::Table((0..256).map(|_| r.below(5) as u64).collect()),
-        6 => CostFn::Table((0..256).map(|_| 1 + r.below(1000) as u64).collect()),
+        6 => {
+            if r.chance(0.5) {
+                CostFn::Table((0..256).map(|_| 1 + r.below(1000) as u64).collect())
+            } else {
+                // free parent prologue (Push, Compute), very expensive everything else: sums of a few
+                // children cross u64::MAX although each child fits
+                let big = u64::MAX / *r.pick(&[2u64, 3, 4, 7, 8, 16]) - r.below(3) as u64;
+                let mut t: Vec<u64> = (0..256).map(|_| if r.chance(0.5) { big } else { 0 }).collect();
+                t[0x01] = 0;
+                t[0x90] = 0;
+                t[0x91] = if r.chance(0.5) { 0 } else { big };
+                CostFn::Table(t)
+            }
+        }
         _ => CostFn::Table((0..256).map(|_| if r.chance(0.1) { 1u64 << 61 } else { r.below(3) as u64 }).collect()),
     };
     case.limit = match (r.below(8), exact_total) {
@@ -1037,4 +1112,44 @@ pub fn gas_setup(r: &mut Rng, case: &mut VmCase, exact_total: Option<u128>) {
         (6, _) => r.next_u64(),
         _ => r.below(400) as u64,
     };
+}
+
+/// Small structured programs for the gas oracle: a free or cheap prologue, a Compute whose children
+/// execute a few ops, an optional tail; cost tables put 0 / small / near-overflow costs on each op kind.
+pub fn gas_probe(r: &mut Rng) -> VmCase {
+    let mut case = base_case(r);
+    let breadth = *r.pick(&[1i64, 2, 2, 3, 4, 8]);
+    let mut ops = vec![];
+    for _ in 0..r.below(3) {
+        ops.push(PUSH(r.range(0, 5)));
+    }
+    ops.extend([PUSH(breadth), COM]);
+    for _ in 0..r.below(4) {
+        match r.below(4) {
+            0 => ops.extend([PUSH(1), POP]),
+            1 => ops.extend([DUP, POP]),
+            2 => ops.extend([PUSH(1), ALOC, POP]),
+            _ => ops.push(POP),
+        }
+    }
+    if r.chance(0.8) {
+        ops.push(COME);
+    }
+    for _ in 0..r.below(3) {
+        ops.extend([PUSH(7), POP]);
+    }
+    case.set_ops(&ops);
+    let choices: Vec<u64> = vec![0, 0, 1, 3, 12, u64::MAX / breadth as u64, (u64::MAX / breadth as u64).saturating_add(1), u64::MAX / 2, u64::MAX / 2 + 1, 1 << 62, u64::MAX];
+    let mut t = vec![1u64; 256];
+    for b in [0x01usize, 0x02, 0x03, 0x70, 0x90, 0x91] {
+        t[b] = *r.pick(&choices);
+    }
+    if r.chance(0.5) {
+        // free prologue
+        t[0x01] = 0;
+        t[0x90] = *r.pick(&[0u64, 0, 1, 3]);
+    }
+    case.cost = CostFn::Table(t);
+    case.limit = u64::MAX;
+    case
 }
